@@ -45,6 +45,9 @@ def run_check(repo, pid):
 def apply_patch(path):
     def f(repo):
         p = subprocess.run(['git', '-C', repo, 'apply', path], capture_output=True, text=True)
+        if p.returncode != 0:
+            # later commits may have touched neighbouring lines: retry with one line of context
+            p = subprocess.run(['git', '-C', repo, 'apply', '-C1', '--recount', path], capture_output=True, text=True)
         return p.returncode == 0, p.stderr.strip()
     return f
 
@@ -53,7 +56,15 @@ def revert_commit(commit):
     def f(repo):
         p = subprocess.run(['git', '-C', repo, '-c', 'user.email=x@x', '-c', 'user.name=x', 'revert', '--no-edit', '-n',
                             commit], capture_output=True, text=True)
-        return p.returncode == 0, (p.stderr.strip() or p.stdout.strip())[:200]
+        if p.returncode == 0:
+            return True, ''
+        why = (p.stderr.strip() or p.stdout.strip())[:200]
+        subprocess.run(['git', '-C', repo, 'revert', '--abort'], capture_output=True)
+        subprocess.run(['git', '-C', repo, 'checkout', '--', '.'], capture_output=True)
+        # fall back to applying the commit's diff in reverse with one line of context
+        d = subprocess.run(['git', '-C', repo, 'show', '--format=', commit], capture_output=True, text=True).stdout
+        q = subprocess.run(['git', '-C', repo, 'apply', '-R', '-C1', '--recount', '-'], input=d, capture_output=True, text=True)
+        return q.returncode == 0, why + ' / ' + q.stderr.strip()[:200]
     return f
 
 
